@@ -271,6 +271,8 @@ fn alphabet() -> Vec<Line> {
         Line::new(&["stel z = onbekend"]),
         Line::new(&["stel z = 4", "z + a"]),
         Line::new(&["functie lees(n) { n + a }", "lees(1)"]),
+        Line::new(&["functie noteer(x) { stel laatste = x }", "functie niets() { }"]),
+        Line::new(&["noteer(5)", "niets()", "a"]),
         Line::new(&["stel a = 50", "a"]),
         Line::new(&["lees(2) + a"]),
     ]
@@ -282,7 +284,7 @@ fn gen_line(t: &mut Tape, declared: &mut Vec<String>, heap_vars: &mut Vec<String
     let pick_var = |t: &mut Tape, d: &Vec<String>| if d.is_empty() { "a".to_string() } else { t.pick(d).clone() };
     *uniq += 1;
     let k = *uniq;
-    match t.below(26) {
+    match t.below(27) {
         0 | 1 => {
             let v = t.pick_str(&VARS).to_string();
             if !declared.contains(&v) {
@@ -409,6 +411,14 @@ fn gen_line(t: &mut Tape, declared: &mut Vec<String>, heap_vars: &mut Vec<String
             } else {
                 Line::new(&[&format!("functie {name}(n) {{ {v} = {v} + n; {v} }}"), &format!("[{name}(1), {v}]")])
             }
+        }
+        25 => {
+            // functions whose body has no value (it ends in a declaration, in a block that does, or is empty): defined on one
+            // line, called from later ones
+            let name = format!("stil{k}");
+            funcs.push(name.clone());
+            let body = *t.pick(&["stel laatste = n", "", "{ stel binnen = n }", "als n > 0 { stel tak = n }", "stel i = 0; zolang i < n { i += 1 }"]);
+            Line::new(&[&format!("functie {name}(n) {{ {body} }}"), &format!("[{name}(2)]")])
         }
         21 => {
             // declare a name again (a new variable; functions of earlier lines keep the old one), then use both
@@ -602,12 +612,12 @@ fn failed_line_relation(rep: &mut Report, seed: u64) {
 // The interactive prompt itself (src/bin/nederlang.rs): the lines of a session are piped into the program built from
 // the tree; what it writes must be what a retained compiler and machine of the library answer, line by line.
 
-fn repl_exe() -> std::path::PathBuf {
+pub fn repl_exe() -> std::path::PathBuf {
     crate::report::verif_dir().join("work/cli-target/debug/nederlang")
 }
 
 /// how the prompt shows a value (None: the text of this value is left open - U12, U16)
-fn shown(v: &Val, open: &mut Vec<usize>, known: &mut std::collections::HashMap<usize, Vec<Val>>, top: bool) -> Option<String> {
+pub fn shown(v: &Val, open: &mut Vec<usize>, known: &mut std::collections::HashMap<usize, Vec<Val>>, top: bool) -> Option<String> {
     Some(match v {
         Val::Null => {
             if top {
@@ -704,7 +714,7 @@ fn repl_io(input: &str) -> Option<(String, String, Option<i32>)> {
 }
 
 /// the error kinds named in a text, in order of appearance
-fn kinds_named(text: &str) -> Vec<&'static str> {
+pub fn kinds_named(text: &str) -> Vec<&'static str> {
     let names = ["SyntaxError", "ReferenceError", "TypeError", "IndexError", "ArgumentError"];
     let mut found: Vec<(usize, &'static str)> = Vec::new();
     for n in names {
@@ -876,7 +886,7 @@ pub fn run_check(ctx: &Ctx) -> Report {
     let mut rep = Report::new(
         "C17",
         "fault_enumeration",
-        "sessions on one retained (Compiler, VM) pair: ALL sessions of <=3 lines over a 22-line alphabet (declarations, assignments, expressions over earlier globals, heap values, a function definition with calls, a call of a function of an earlier line, a function that reads a global that a later line declares again, a loop, \
+        "sessions on one retained (Compiler, VM) pair: ALL sessions of <=3 lines over a 24-line alphabet (declarations, assignments, expressions over earlier globals, heap values, a function definition with calls, a call of a function of an earlier line, a function that reads a global that a later line declares again, a loop, \
          and failing lines: parse error, compile errors after a declaration and inside a loop with a pending stop, run-time errors after assignments), plus generated sessions of up to 13 lines (lines of the same kinds, compile errors at every statement position, \
          run-time errors inside functions and loops, and lines cut short by the instruction budget after k instructions). Oracle: every line must produce what the same line produces as the last line of ONE program made of the effective earlier lines (nederlang::eval of the concatenation); \
          a line that fails statically contributes nothing, a line that fails at run time contributes the statements it completed. \
@@ -959,7 +969,7 @@ pub fn run_check(ctx: &Ctx) -> Report {
         }
     }
     failed_line_relation(&mut rep, seed);
-    rep.extra.insert("exhaustive_parts".into(), json!(["all sessions of <=3 lines over the 22-line alphabet (11 154 sessions)", "every cut point k of three multi-statement lines"]));
+    rep.extra.insert("exhaustive_parts".into(), json!(["all sessions of <=3 lines over the 24-line alphabet (14 424 sessions)", "every cut point k of three multi-statement lines"]));
     let ctx2 = ctx.clone();
     let mut rep = par_shards(ctx.shards, rep, move |shard, r| {
         let alpha = alphabet();
